@@ -22,12 +22,15 @@ def mix(z):
     return z ^ (z >> 31)
 
 
+NAPI = 12  # print paths in vh-mt's print mode
+
+
 def is_long(tid, seq):
-    return (seq + tid) % 8 == 4 and seq % 4 == 0
+    return (seq + tid) % NAPI == 4 and seq % 4 == 0
 
 
 def is_long_fmt(tid, seq):
-    return (seq + tid) % 8 == 3 and seq % 64 == 3
+    return (seq + tid) % NAPI == 3 and seq % 64 == 3
 
 
 def expected_record(tid, seq, strip):
@@ -56,7 +59,7 @@ HEAD = re.compile(rb"<(\d+):(\d+):")
 
 
 def to_stderr(tid, seq):
-    return (seq + tid) % 8 in (2, 5)
+    return (seq + tid) % NAPI in (2, 5, 9, 10, 11)
 
 
 def check_pipe(data, which, threads, per, strip, res, lane, stats):
@@ -153,6 +156,7 @@ def run_print(exe, threads, per, seed, strip, timeout=900):
 def check_register(text, lane, res, stats):
     writes = []
     reads = []
+    decisions = []
     fin = None
     for ln in text.splitlines():
         f = ln.split()
@@ -163,6 +167,8 @@ def check_register(text, lane, res, stats):
             writes.append((a, b, v))
         elif op == "r":
             reads.append((a, b, v, tid))
+        elif op == "d":
+            decisions.append((a, b, v, tid))
         elif op == "f":
             fin = (a, b, v)
     if not writes or not reads:
@@ -217,6 +223,21 @@ def check_register(text, lane, res, stats):
         res.violations.append({"sig": "c19:register:stale-or-unwritten-read", "count": bad, "check": "c19", "lane": lane,
                                "example": {"msg": "[%s] %d reads cannot be explained by the initial value or a write that was not certainly overwritten; first: %s" % (lane, bad, first),
                                            "case": {"kind": "c19-run", "lane": lane, "bytes_hex": [], "nums": []}}})
+    # decisions (AutoStream::choice for a non-terminal, no colour variables): never Auto, and explained by a value of the
+    # register that was possibly current during the call: AlwaysAnsi <- AlwaysAnsi, Always <- Always, Never <- Never or Auto
+    preimage = {1: (1,), 2: (2,), 3: (3, 0)}
+    bad_d = 0
+    first_d = None
+    for (a, b, v, tid) in decisions:
+        if v not in preimage or not any(explainable(g, a, b) for g in preimage[v]):
+            bad_d += 1
+            if first_d is None:
+                first_d = "thread %d decided %s in [%d,%d]" % (tid, ("Auto", "AlwaysAnsi", "Always", "Never")[v] if 0 <= v < 4 else v, a, b)
+    if bad_d:
+        res.violations.append({"sig": "c19:register:decision-not-explained-by-one-read", "count": bad_d, "check": "c19", "lane": lane,
+                               "example": {"msg": "[%s] %d decisions are Auto or cannot be explained by one value of the global choice that was possibly current during the call; first: %s" % (lane, bad_d, first_d),
+                                           "case": {"kind": "c19-run", "lane": lane, "bytes_hex": [], "nums": []}}})
+    stats["register_decisions"] = stats.get("register_decisions", 0) + len(decisions)
     if fin is None:
         raise Inconclusive("[%s] no final read in the register history" % lane)
     max_inv = max(w[0] for w in writes)
@@ -350,6 +371,24 @@ def run(res, tier):
                 raise Inconclusive("[%s] vh-mt exited with %d: %s" % (lane, p.returncode, p.stderr[-300:]))
             total_lines += check_pipe(p.stdout, "stdout", t, per, strip, res, lane, stats)
             total_lines += check_pipe(p.stderr, "stderr", t, per, strip, res, lane, stats)
+    # the same workload in a build with anstream's `test` feature (the print macros then go through std's print machinery,
+    # the arm that `cargo test` users get): one call still produces one contiguous record
+    td2 = common.cargo_build(["vh-mt"], "release", target_dir="target-mtcap", extra_args=["--features", "capture"])
+    exe2 = os.path.join(td2, "release", "vh-mt")
+    cap_jobs = [(common.SEED * 100 + 50 + s, t, strip) for s in range(1 if tier == "quick" else 4) for t in (4, 16) for strip in (True, False)]
+    cstats = {}
+    clines = 0
+    with cf.ThreadPoolExecutor(max_workers=3) as ex:
+        futs = [(j, ex.submit(run_print, exe2, j[1], per, j[0], j[2])) for j in cap_jobs]
+        for (seed, t, strip), f in futs:
+            p = f.result()
+            lane = "native:print:feature-test:threads=%d:%s:seed=%d" % (t, "strip" if strip else "pass-through", seed)
+            if p.returncode != 0:
+                raise Inconclusive("[%s] vh-mt exited with %d: %s" % (lane, p.returncode, p.stderr[-300:]))
+            clines += check_pipe(p.stdout, "stdout", t, per, strip, res, lane, cstats)
+            clines += check_pipe(p.stderr, "stderr", t, per, strip, res, lane, cstats)
+    cpat = cstats.pop("patterns", set())
+    res.add_lane("native:print:feature-test", "held", dict(cstats, distinct_switch_patterns=len(cpat), runs=len(cap_jobs), lines_checked=clines), evaluations=cstats.get("records", 0), distinct=cstats.get("records", 0))
     patterns = stats.pop("patterns", set())
     observed = dict(stats, distinct_switch_patterns=len(patterns), runs=len(jobs), lines_checked=total_lines)
     if stats.get("thread_switches", 0) < 100:
